@@ -25,9 +25,9 @@ import inspect, warnings, numbers, contextlib
 import numpy as np
 
 PROP = 'C17'
-GENERATED = ['ParsDispatch']
+GENERATED = ['ParsDispatch', 'ParsRefs']
 DRIVER = 'Drivers/C17.lean'
-DRIVER_MODULES = ['StarsimModel.Model.Pars', 'StarsimModel.Model.Proto']
+DRIVER_MODULES = ['StarsimModel.Model.Pars', 'StarsimModel.Model.ParsDeep', 'StarsimModel.Model.ParsRefs', 'StarsimModel.Generated.ParsRefs', 'StarsimModel.Model.Proto']
 RULE = ('exhaustive: every constructible class of ss.find_modules() x every parameter x 19 new-value kinds (direct update and '
         'constructor route), a probe module covering the remaining old kinds (full 23 x 19 table), unknown keys at 9 routes x '
         'sampled classes, 7 spellings x every registered name; seeded part: sentinel values, sampled classes for routes, '
@@ -563,6 +563,10 @@ def correspond(ctx):
 
     # ---- (4b) round 2: merging, ss.Time route, duplicates, depth-3 nesting ------------------------------------------
     round2_cases(ctx, ask, classes)
+
+    # ---- (4c) round 3: name-keyed parameters resolved at init (beta maps), ownership of caller-supplied dicts -----------
+    from harness.props import c17_refs
+    c17_refs.round3_cases(ctx, ask)
 
     # ---- (5) inputs copied -----------------------------------------------------------------------------------------
     def cb_copy(ml):
@@ -1696,6 +1700,8 @@ def search(ctx):
     Probe = make_probe_class()
     targets = [(cls, False) for mk, cls in classes] + [(Probe, True)]
     round2_search(ctx, targets)
+    from harness.props import c17_refs
+    c17_refs.round3_search(ctx, targets)
     # (a) applied or rejected: sampled over class x parameter x kind x route (exhaustive when something broke / thorough)
     pool = []
     for cls, probe in targets:
@@ -1793,6 +1799,9 @@ def resolve_cls(name, probe):
 
 
 def replay(ctx, data):
+    from harness.props import c17_refs
+    r3 = c17_refs.replay(ctx, data)
+    if r3 is not None: return r3
     k = data.get('kind')
     if k == 'apply':
         return bool(oracle_apply(resolve_cls(data['cls'], data.get('probe')), data['par'], data['nk'], data['tok'], data['route'], data.get('probe', False)))
